@@ -260,4 +260,51 @@ theorem removeObserver_aggregates_eq (g : G_observerManager) (o : G_Observer) :
       | (rw [hC2, hflag]; done)
 
 
+/-! ### the tail of `AddObserver`: the aggregates absorb the new observer -/
+
+theorem map_abs_getD (l : List M256) (i : Nat) :
+    (l.map abs).getD i Mask.empty = abs (l.getD i (⟨⟨0#64, 0#64, 0#64, 0#64⟩⟩ : M256)) := by
+  simp only [List.getD_eq_getElem?_getD, List.getElem?_map]
+  cases l[i]? <;> simp [abs_zero256]
+
+theorem opt_abs_getD (x : Option M256) :
+    (Option.map abs x).getD Mask.empty = abs (x.getD (⟨⟨0#64, 0#64, 0#64, 0#64⟩⟩ : M256)) := by
+  cases x <;> simp [abs_zero256]
+
+/-- **The tail of `AddObserver` as in the source** — what the model's `ObsMgr.addComputed` does to the
+    event type's state: an observer with `With` components is OR-ed into the union, one without sets the
+    wildcard flag; the same for `For` components unless the event is an entity event; nothing else
+    changes. -/
+theorem addObserver_aggregates_eq (g : G_observerManager) (o : G_Observer) (w : G_World) :
+    (observerManager_AddObserver_aggregates g o w).observers = g.observers ∧
+    (if o.hasWith = true then
+      (observerManager_AddObserver_aggregates g o w).allWith.map abs =
+        (g.allWith.map abs).set o.event (((g.allWith.map abs).getD o.event Mask.empty).or (abs o.withMask)) ∧
+      (observerManager_AddObserver_aggregates g o w).anyNoWith = g.anyNoWith
+    else
+      (observerManager_AddObserver_aggregates g o w).allWith = g.allWith ∧
+      (observerManager_AddObserver_aggregates g o w).anyNoWith = g.anyNoWith.set o.event true) ∧
+    (if o.event = 249 ∨ o.event = 250 then
+      (observerManager_AddObserver_aggregates g o w).allComps = g.allComps ∧
+      (observerManager_AddObserver_aggregates g o w).anyNoComps = g.anyNoComps
+    else if o.hasComps = true then
+      (observerManager_AddObserver_aggregates g o w).allComps.map abs =
+        (g.allComps.map abs).set o.event (((g.allComps.map abs).getD o.event Mask.empty).or (abs o.compsMask)) ∧
+      (observerManager_AddObserver_aggregates g o w).anyNoComps = g.anyNoComps
+    else
+      (observerManager_AddObserver_aggregates g o w).allComps = g.allComps ∧
+      (observerManager_AddObserver_aggregates g o w).anyNoComps = g.anyNoComps.set o.event true) := by
+  unfold observerManager_AddObserver_aggregates
+  by_cases hev : o.event = 249 ∨ o.event = 250
+  · have hev' : (o.event == 249 || o.event == 250) = true := by
+      rcases hev with h | h <;> simp [h]
+    cases hw : o.hasWith <;> simp [hev', hev, hw, List.map_set, orI_eq, opt_abs_getD]
+  · have hev' : (o.event == 249 || o.event == 250) = false := by
+      cases h : (o.event == 249 || o.event == 250)
+      · rfl
+      · exfalso; apply hev
+        simp only [Bool.or_eq_true, beq_iff_eq] at h; exact h
+    cases hw : o.hasWith <;> cases hc : o.hasComps <;>
+      simp [hev', hev, hw, hc, List.map_set, orI_eq, opt_abs_getD]
+
 end Ark.GenBridge.Book
